@@ -741,9 +741,9 @@ pub fn run(a: &Args) -> i32 {
     let root = crate::e1::scratch_root();
     let _ = std::fs::create_dir_all(&root);
     let cnt = Counters::default();
-    let small = a.tier.pick(40, 400);
-    let large = a.tier.pick(16, 160);
-    let stores = a.tier.pick(8, 60);
+    let small = a.tier.pick(40, 2000);
+    let large = a.tier.pick(16, 600);
+    let stores = a.tier.pick(8, 200);
     let sample = a.tier.pick(60, 400);
     let found: Mutex<Vec<(J, Problem)>> = Mutex::new(vec![]);
     let samples: Mutex<Vec<J>> = Mutex::new(vec![]);
